@@ -1186,7 +1186,12 @@ func abs(x float64) float64 {
 }
 
 func roundup(x float64) float64 {
-	return math.Round(x*10) / 10
+	// The exact score is a rational number that often is precisely x.x5, while
+	// the float64 x carries subtraction noise (e.g. 9.3-8.9 = 0.40000000000000036)
+	// that can land just below the tie. As the reference implementation does, add
+	// an epsilon far smaller than the distance between any non-tie score and a tie
+	// (>= 1.19e-5) so ties are always rounded half-up.
+	return math.Round((x+0.000001)*10) / 10
 }
 
 // Nomenclature returns the CVSS v4.0 configuration used when scoring.
